@@ -1092,7 +1092,10 @@ func (z *Decimal) SetFloat(x *big.Float) *Decimal {
 	exp2 -= int64(fprec)
 	if exp2 != 0 {
 		// multiply / divide by 2**exp with increased precision
-		z.prec++
+		extra := z.prec < MaxPrec // z.prec+1 must not wrap around to 0
+		if extra {
+			z.prec++
+		}
 		// the power of two needs more digits than z: rounded to z.prec
 		// digits only, it pushed the result up to two units away from
 		// the correctly rounded value and spoiled exact conversions
@@ -1108,7 +1111,9 @@ func (z *Decimal) SetFloat(x *big.Float) *Decimal {
 		} else {
 			z = z.Mul(z, t.pow2(uint64(exp2)))
 		}
-		z.prec--
+		if extra {
+			z.prec--
+		}
 	}
 	z.round(0)
 	return z
@@ -1149,7 +1154,10 @@ func (z *Decimal) SetFloat64(x float64) *Decimal {
 	z.exp = int32(len(z.mant))*_DW - int32(dnorm(z.mant))
 	if exp2 != 0 {
 		// multiply / divide by 2**exp with increased precision
-		z.prec++
+		extra := z.prec < MaxPrec // z.prec+1 must not wrap around to 0
+		if extra {
+			z.prec++
+		}
 		// the power of two needs more digits than z: rounded to z.prec
 		// digits only, it pushed the result up to two units away from
 		// the correctly rounded value and spoiled exact conversions
@@ -1159,7 +1167,9 @@ func (z *Decimal) SetFloat64(x float64) *Decimal {
 		} else {
 			z = z.Mul(z, t.pow2(uint64(exp2)))
 		}
-		z.prec--
+		if extra {
+			z.prec--
+		}
 	}
 	z.round(0)
 	return z
